@@ -218,8 +218,8 @@ def make_space(b):
     case = b.case
     sp = case.get("space", ["box", -3.0, 3.0])
     if sp[0] == "box":
-        return BoxPortfolio(list(b.contracts), low=sp[1], high=sp[2], as_weights=True, fractional=True,
-                            margin=case.get("threshold", 0.0))
+        return BoxPortfolio(list(b.contracts), low=sp[1], high=sp[2], as_weights=(sp[3] if len(sp) > 3 else True),
+                            fractional=(sp[4] if len(sp) > 4 else True), margin=case.get("threshold", 0.0))
     if sp[0] == "discrete":
         return DiscretePortfolio(list(b.contracts), allocations=[list(a) for a in sp[1]])
     raise ValueError(sp)
